@@ -79,10 +79,13 @@ def gen_config(rng):
         if r < 0.3:
             fx = None
         else:
-            fx = {key: rng.uniform(0.1, 3.0) for key in FIXABLE[blk] if rng.random() < 0.25}
+            # fixed values include exact zeros (int and float), negative values and ones: a parameter fixed at
+            # 0 is as fixed as one fixed at 0.7
+            fx = {key: (rng.uniform(0.1, 3.0) if rng.random() < 0.6 else rng.choice([0.0, 0, 1.0, -0.5]))
+                  for key in FIXABLE[blk] if rng.random() < 0.25}
         k["kwargs_fixed_" + blk] = fx
     if k["los_distributions"] is not None and b(0.7):
-        k["kwargs_fixed_los"] = [{key: rng.uniform(0.01, 0.5) for key in ("mean", "sigma", "xi") if rng.random() < 0.3}
+        k["kwargs_fixed_los"] = [{key: (rng.uniform(0.01, 0.5) if rng.random() < 0.7 else 0.0) for key in ("mean", "sigma", "xi") if rng.random() < 0.3}
                                  for _ in k["los_distributions"]]
     else:
         k["kwargs_fixed_los"] = None
